@@ -1,5 +1,7 @@
 package flowsim
 
+import "strings"
+
 // Scenario shrinking: candidates strictly simpler than the input. The driver
 // keeps a candidate when the same violation class persists.
 
@@ -94,7 +96,7 @@ func simplerOutcome(o Outcome) []Outcome {
 			out = append(out, c)
 		}
 	}
-	if o.Pay != "" && o.Pay != "int" && o.Pay != "result" {
+	if o.Pay != "" && o.Pay != "int" && o.Pay != "result" && !strings.HasPrefix(o.Pay, "nil") {
 		c := o
 		c.Pay = "int"
 		out = append(out, c)
